@@ -42,6 +42,21 @@ CLAIMS = {
         text="Coq theorems for ALL lists of entries and ALL partitions into chunks (no bound on sizes or number of cuts): on a well-formed UTF-8 stream every write succeeds, the collected entries equal the stream's entries in order, the carry-over buffer ends empty, the result equals the one-call result and printing the collection reproduces the stream (C09_chunk_independent, C09_same_as_whole); with a malformed UTF-8 entry after any number of good ones, all earlier writes succeed, exactly the write receiving the last byte of that entry fails, and the collected entries are exactly the good ones (C09_malformed). Generic in parser/validity, then instantiated with the proved pkg_summary parser and a UTF-8 validity DFA (closure under concatenation and newline-prefixes proved). Correspondence each run: every single cut, fixed sizes 1-9, random partitions (thorough: cut pairs) of generated streams with 2/3/4-byte characters, good and malformed; chunked vs whole vs stream vs model.",
         ref="§7 C09, §8 D5", note=TB + " std::str::from_utf8 is modelled by utf8_valid (Summary.v); Vec/windows/rposition/split_terminator by list functions.",
         technique="Coq proof (prefix decomposition of well-formed streams, induction over chunk lists) + model/implementation differential correspondence + chunking oracle"),
+    "C10": dict(
+        text="Coq theorems for ALL printable Distinfos (any number of files, any subset/order of algorithms, names over ANY non-blank bytes incl. invalid UTF-8, sizes to u64::MAX, RCS Id lines of any bytes): parsing what as_bytes prints returns exactly the same structure (C10_api_roundtrip) and hence every canonical file is reproduced byte for byte (C10_canonical_roundtrip). Proof: each printed line is shown to parse to its own record (field splitter lemmas), then a fold over blocks. Correspondence each run: generated canonical files through from_bytes->as_bytes and API-built Distinfos through as_bytes->from_bytes, vs the model and vs the input.",
+        ref="§7 C10, §8 D6/D7", note=TB + " Unix Path components/equality are modelled in Distinfo.v.",
+        technique="Coq proof (line recognition + fold over entry blocks) + model/implementation differential correspondence + round-trip oracle"),
+    "C11": dict(
+        text="Coq theorems for ALL byte strings: well-formed checksum/size lines with arbitrary blanks are recognised for names over ANY non-blank bytes; comments, blank lines, unknown algorithms and bad sizes are ignored; and C11_meaning: after parsing ANY text the two maps hold exactly the files named by the recognised lines, in first-appearance order, each with its checksums in line order and its last size, patch files apart by the file-name rule, and nothing else (invariant Inv proved by induction over the lines with path equality as an equivalence). Correspondence each run: interleaved lines for several files mixed with the five kinds of ignorable lines and random garbage, names over arbitrary bytes, plus the classifier table.",
+        ref="§7 C11", note=TB, technique="Coq proof (snoc-induction with per-file invariant) + model/implementation differential correspondence"),
+    "C12": dict(
+        text="PARTIAL (the file system is not modelled). Coq theorems: size verification succeeds iff the length equals the recorded size, else Size(expected, actual) / MissingSize / NotFound; checksum verification hashes the file for distfiles and the file minus its '$NetBSD' lines for patches against the first recorded hash of that algorithm, else MissingChecksum / NotFound; find_entry = first recorded path among the trailing sub-paths, shortest first, in the map of the path's class; for ordinary dir/.../file paths the components are the segments. Correspondence each run: real files written in a private directory - exact content, single-byte corruptions, length changes, corrupted records, missing files, deeper and unrelated lookup paths - with Python hashlib as the digest reference.",
+        ref="§7 C12", note=TB + " File::open/metadata and the RustCrypto digests are outside the model; hashlib is the reference.",
+        technique="Coq proof (specification lemmas for lookup/verification) + fault-enumerating differential correspondence on real files"),
+    "C13": dict(
+        text="PARTIAL (third-party hash code). Coq theorems about WHICH bytes are hashed: for every read schedule the pre-image is the concatenation of the data read before end of file, independent of how reads are split or interrupted; a hard error before EOF is returned and nothing is hashed; the patch pre-image is the newline-terminated lines not containing '$NetBSD', a final unterminated line counting as terminated; names parse case-insensitively (incl. the U+212A corner) and print canonically. That the six RustCrypto crates compute the standard functions is NOT proved: each run compares hash_str/hash_file/hash_patch with Python hashlib on lengths around every block boundary, multi-KiB inputs and scripted readers (1-byte reads, random short reads, cuts inside '$NetBSD' and at newlines, Interrupted/hard errors at every position).",
+        ref="§7 C13", note=TB + " Reference digests: Python hashlib (OpenSSL).",
+        technique="Coq proof (read-loop model) + differential testing against reference digests"),
     "C18": dict(
         text="Coq theorems for all strings: with a '-' base ++ '-' ++ version rebuilds the name and the version has no '-'; without, the whole string is the base; for EVERY prefix p a version p++'nb'++digits has PkgName revision nbval(digits) and the version comparison's revision is the same number (no token of the tokeniser can straddle the final nb); no 'nb' -> None. Correspondence each run: PkgName::new vs model on structured names, plus probes of the matcher's revision through 'base>=VERnbK' patterns.",
         ref="§7 C18", note=TB + " The pkg_summary pkgbase()/pkgversion() agreement is C18_summary_agrees (SummaryPkg.v).",
